@@ -97,7 +97,10 @@ pub fn inputs(b: &Building, f: &FactorCase) -> Result<Inputs, Failure> {
 
 impl Inputs {
     pub fn scales(&self, area: f32) -> Scales {
-        Scales::from_inputs(&self.lines, self.n, &self.ft, area as f64)
+        let mut sc = Scales::from_inputs(&self.lines, self.n, &self.ft, area as f64);
+        let nd = &self.comps.needs;
+        sc.needs = [&nd.ACS, &nd.CAL, &nd.REF].iter().filter_map(|x| x.as_ref()).flat_map(|v| v.iter()).map(|x| x.abs() as f64).sum();
+        sc
     }
 }
 
